@@ -74,7 +74,7 @@ impl JsonGen {
             6..=7 => self.gen_array(rng, depth),
             8 => {
                 let n = 2 + rng.below(2);
-                json!({"anyOf": (0..n).map(|_| self.gen(rng, depth - 1)).collect::<Vec<_>>()})
+                json!({"anyOf": (0..n).map(|_| self.gen(rng, depth.saturating_sub(1))).collect::<Vec<_>>()})
             }
             9 => {
                 if self.n_defs > 0 {
@@ -87,7 +87,7 @@ impl JsonGen {
             11 => json!({"const": self.gen_const(rng, 2)}),
             12 => {
                 // oneOf over disjoint types
-                let mut kinds = vec![self.gen_string(rng), self.gen_integer(rng), json!({"type": "boolean"}), self.gen_array(rng, depth - 1), json!({"type": "null"})];
+                let mut kinds = vec![self.gen_string(rng), self.gen_integer(rng), json!({"type": "boolean"}), self.gen_array(rng, depth.saturating_sub(1)), json!({"type": "null"})];
                 rng.shuffle(&mut kinds);
                 kinds.truncate(2 + rng.below(2));
                 json!({"oneOf": kinds})
@@ -227,11 +227,11 @@ impl JsonGen {
             2 => json!(rng.range(-1000, 1000) as f64 / 8.0),
             3 => json!(rng.chance(1, 2)),
             4 => Value::Null,
-            5 => Value::Array((0..rng.below(3)).map(|_| self.gen_const(rng, depth - 1)).collect()),
+            5 => Value::Array((0..rng.below(3)).map(|_| self.gen_const(rng, depth.saturating_sub(1))).collect()),
             _ => {
                 let mut m = Map::new();
                 for _ in 0..rng.below(3) {
-                    m.insert(rng.pick(KEYS).to_string(), self.gen_const(rng, depth - 1));
+                    m.insert(rng.pick(KEYS).to_string(), self.gen_const(rng, depth.saturating_sub(1)));
                 }
                 Value::Object(m)
             }
@@ -281,7 +281,7 @@ impl JsonGen {
         let mut o = json!({"type": "array"});
         let np = if rng.chance(1, 3) { 1 + rng.below(2) } else { 0 };
         if np > 0 {
-            o["prefixItems"] = Value::Array((0..np).map(|_| self.gen(rng, depth - 1)).collect());
+            o["prefixItems"] = Value::Array((0..np).map(|_| self.gen(rng, depth.saturating_sub(1))).collect());
         }
         match rng.below(4) {
             0 => {}
@@ -289,7 +289,7 @@ impl JsonGen {
                 o["items"] = json!(false);
             }
             _ => {
-                o["items"] = self.gen(rng, depth - 1);
+                o["items"] = self.gen(rng, depth.saturating_sub(1));
             }
         }
         if rng.chance(1, 2) {
@@ -311,7 +311,7 @@ impl JsonGen {
         let mut props = Map::new();
         let mut req = vec![];
         for k in &keys[..n] {
-            props.insert(k.to_string(), self.gen(rng, depth - 1));
+            props.insert(k.to_string(), self.gen(rng, depth.saturating_sub(1)));
             if rng.chance(1, 2) {
                 req.push(json!(k));
             }
@@ -350,7 +350,7 @@ impl JsonGen {
     fn gen_allof(&self, rng: &mut Rng, depth: u32) -> Value {
         match rng.below(3) {
             0 => json!({"allOf": [
-                {"type": "object", "properties": {"a": self.gen(rng, depth - 1)}, "required": ["a"]},
+                {"type": "object", "properties": {"a": self.gen(rng, depth.saturating_sub(1))}, "required": ["a"]},
                 {"type": "object", "properties": {"b": self.gen_leaf(rng)}, "required": if rng.chance(1,2) { json!(["b"]) } else { json!([]) }}
             ]}),
             1 => json!({"allOf": [
@@ -366,7 +366,7 @@ impl JsonGen {
 
     fn gen_sibling(&self, rng: &mut Rng, depth: u32) -> Value {
         // keywords next to anyOf => intersection
-        let mut o = json!({"anyOf": [self.gen_string(rng), self.gen_integer(rng), self.gen_array(rng, depth - 1)]});
+        let mut o = json!({"anyOf": [self.gen_string(rng), self.gen_integer(rng), self.gen_array(rng, depth.saturating_sub(1))]});
         match rng.below(3) {
             0 => {
                 o["type"] = json!(["string", "integer"]);
